@@ -93,6 +93,11 @@ func c16Program() *hs.Program {
 					hs.ES(hs.CallN("throw", hs.S("after")))),
 					Var: "outer", Catch: hs.Blk(nil, hs.ES(hs.Asg("+=", hs.V("total"), hs.I(100))))}),
 			), hs.P("n", intT)),
+			// a `return` executed while operands of enclosing expressions are pending (the left operand
+			// of an addition; an earlier argument of a call): the result of the call is the returned value
+			hs.Fn("pending", intT, hs.Blk(hs.V("x"),
+				hs.LetS("x", hs.Bin("+", hs.I(100), &hs.If{Cond: hs.Bin(">", hs.V("n"), hs.I(5)), Then: hs.Blk(nil, &hs.Return{X: hs.V("n")}), Else: hs.Blk(hs.V("n"))}))), hs.P("n", intT)),
+			hs.Fn("argret", intT, hs.Blk(hs.CallN("sub", hs.I(50), &hs.If{Cond: hs.Bin("<", hs.V("n"), hs.I(0)), Then: hs.Blk(nil, &hs.Return{X: hs.I(-1)}), Else: hs.Blk(hs.V("n"))})), hs.P("n", intT)),
 			// an exception raised and caught in the same frame while operands are pending inside and
 			// outside the try: 100 + (try { 10 + <throws> } catch { 7 }) == 107
 			hs.Fn("caught", intT, hs.Blk(hs.Bin("+", hs.I(100), &hs.Try{
@@ -120,6 +125,7 @@ var c16Alphabet = []hostCall{
 	{"sub", []int64{1, 0}}, {"sub", []int64{0, 1}}, {"inc", nil}, {"get", nil}, {"early", []int64{0}}, {"early", []int64{2}},
 	{"boom", nil}, {"viacallee", nil}, {"deep", []int64{3}}, {"obj", nil}, {"caught", nil}, {"launch", nil}, {"getdone", nil},
 	{"firstover", []int64{15}}, {"firstover", []int64{5}}, {"grow", nil}, {"fresh", []int64{1}}, {"fresh", []int64{2}}, {"skipodd", []int64{1}}, {"skipodd", []int64{3}}, {"start2", []int64{7, 2}}, {"diff", nil},
+	{"pending", []int64{9}}, {"pending", []int64{2}}, {"argret", []int64{-4}},
 }
 
 var sp = herrors.Span{}
@@ -132,7 +138,7 @@ func c16Signature(fn string) runtime.FunctionInvocationSignature {
 	switch fn {
 	case "sub", "start2":
 		return runtime.FunctionInvocationSignature{Params: []runtime.FunctionInvocationSignatureParam{param("a"), param("b")}, ReturnType: intT}
-	case "early", "deep", "firstover", "fresh", "skipodd":
+	case "early", "deep", "firstover", "fresh", "skipodd", "pending", "argret":
 		return runtime.FunctionInvocationSignature{Params: []runtime.FunctionInvocationSignatureParam{param("n")}, ReturnType: intT}
 	case "obj":
 		return runtime.FunctionInvocationSignature{ReturnType: ast.NewObjectType([]ast.ObjectTypeField{
